@@ -832,6 +832,9 @@ with SqlImpl.impl_store.impl_manager as impl:
 
     @impl(ops.shift)
     def _shift(x, by, empty_value=None):
+        # `fill_value` is a const parameter, so it arrives as a plain Python value
+        if empty_value is not None and not isinstance(empty_value, sqa.sql.ColumnElement):
+            empty_value = sqa.literal(empty_value, literal_execute=True)
         if by >= 0:
             if empty_value is not None and not isinstance(empty_value.type, sqa.types.NullType):
                 return sqa.func.LAG(x, by, empty_value, type_=x.type)
